@@ -65,6 +65,10 @@ def stepOp (sets : Array SetSt) (op : Sexp) : Option (Array SetSt × String) :=
 
 def handle (s : Sexp) : String :=
   match s with
+  -- mutual exclusion of a synchronized set across a second Synchronize / a refused WithLock: the
+  -- mutex is installed once (`atomic.Set` succeeds only on the empty slot), so a later operation
+  -- waits for the one in progress
+  | .list (.atom "setexcl" :: _) => "excl overlapped=0"
   | .list (.atom "set" :: ops) =>
     let rec go (sets : Array SetSt) (ops : List Sexp) (acc : List String) : List String :=
       match ops with
